@@ -321,6 +321,61 @@ theorem compile_evaluates_once (g : Graph) (comps : List (List Nat)) (o : List N
   subst hoc
   simp [compile, ho, h1, bind, Except.bind]
 
+/-- Completeness (the other half of "every constant is evaluated exactly once"):
+when the components pass the checker *and* are strongly connected (`validScc`),
+a graph in which no constant reaches itself and no script constant reaches a
+context variable is accepted, with the order `tarjan` found, and evaluated as in
+`evaluated_once_after_deps`.  (`g.keys.Nodup` is the `BTreeMap` invariant.) -/
+theorem compile_accepts_valid (g : Graph) (comps : List (List Nat)) (hkeys : g.keys.Nodup)
+    (ht : tarjan g = .ok comps) (hv : validScc g comps = true)
+    (hacyc : ∀ c d, g.kind c = .const → Edge g c d → ¬ Reach g d c)
+    (hctx : ¬ ∃ c, c ∈ g.keys ∧ g.kind c = .const ∧ UsesCtx g c) :
+    ∃ st, compile g = .ok (.compiled comps.flatten st) ∧
+      st.log.Nodup ∧
+      (∀ c, c ∈ st.log ↔ (c ∈ g.keys ∧ g.kind c = .const)) ∧
+      (∀ c d, c ∈ st.log → d ∈ g.keys → g.kind d = .const → d ≠ c → Reach g c d → Before d c st.log) := by
+  simp only [validScc, Bool.and_eq_true, List.all_eq_true] at hv
+  obtain ⟨hvo, hscc⟩ := hv
+  have topo := RotoV.Tarjan.validOrder_sound g comps hvo
+  have hs : selfEdge g g.edges = none := by
+    cases h : selfEdge g g.edges with
+    | none => rfl
+    | some c =>
+      obtain ⟨hk, rs, hm, hr⟩ := selfEdge_inv g g.edges c h
+      have hl : g.edges.lookup c = some rs := lookup_of_mem_nodup g.edges c rs hkeys hm
+      have e : Edge g c c := by simp [Edge, Graph.refs, hl, hr]
+      exact absurd (Reach.refl c) (hacyc c c hk e)
+  have hm : mixedComponent g comps = none := by
+    cases h : mixedComponent g comps with
+    | none => rfl
+    | some c =>
+      obtain ⟨comp, hcomp, hl, hcc, hk⟩ := mixedComponent_inv g comps c h
+      have hnd : comp.Nodup := by
+        obtain ⟨pre, post, hsplit⟩ := List.append_of_mem hcomp
+        have := topo.nodup
+        rw [hsplit] at this
+        simp only [List.flatten_append, List.flatten_cons] at this
+        exact (List.nodup_append.1 (List.nodup_append.1 this).2.1).1
+      obtain ⟨y, hy, hyc⟩ := exists_ne_of_length hnd hl c
+      have sc := sccOk_sound g comp (hscc comp hcomp)
+      obtain ⟨m, e, r⟩ := (sc c y hcc hy).head_of_ne (Ne.symm hyc)
+      exact absurd (r.trans (sc y c hy hcc)) (hacyc c m hk e)
+  obtain ⟨r, hr, hiff, _⟩ := context_rejected_iff g
+  have hrn : r = none := by
+    cases r with
+    | none => rfl
+    | some c => exact absurd (hiff.1 rfl) hctx
+  subst hrn
+  have ho : findCompilationOrder g = .ok (.order comps.flatten) := by
+    simp [findCompilationOrder, hs, ht, hm, hr, bind, Except.bind]
+  obtain ⟨_, st, h1, h2, h3, h4, _⟩ := compile_evaluates_once g comps comps.flatten ht hvo ho
+  exact ⟨st, h1, h2, h3, h4⟩
+
+example : validScc ⟨[(1, [2]), (2, [3, 4]), (3, [2, 4]), (4, [])], fun _ => .func⟩ [[4], [3, 2], [1]] = true := by
+  decide
+example : validScc ⟨[(1, [2]), (2, [3, 4]), (3, [2, 4]), (4, [])], fun _ => .func⟩ [[4], [3, 2, 1]] = false := by
+  decide
+
 example : (codegen ⟨[(0, [2]), (1, []), (2, [1])], fun n => if n = 2 then .func else .const⟩ [1, 2, 0]).map (·.log)
     = .ok [1, 0] := by decide
 /-- a wrong order is a loud failure in the model (`ice!("Constant not defined")`) -/
